@@ -1,8 +1,8 @@
 /-
   The Pratt parser reads back what the printer prints: for every operator tree over atoms (identifiers
-  and literals), prefix operators, binary operators and index expressions, printed with exactly the
-  parentheses that the documented precedence levels and left-to-right grouping make necessary, the parser
-  returns that very tree - any size, any shape.
+  and literals), prefix operators, binary operators, index expressions, calls with argument lists and
+  array literals, printed with exactly the parentheses that the documented precedence levels and
+  left-to-right grouping make necessary, the parser returns that very tree - any size, any shape.
   (The invariant: parsing the printed tree below its level is the same as continuing the infix loop
   with the tree already built as the left operand.)
 -/
@@ -40,18 +40,33 @@ def Atom (tok : Token) (e : Expr) : Prop :=
 /-- prefix operator tokens: `!`, `-`, `√` -/
 def Pre (o : Token) : Prop := prefixFn o.ty = some .prefixOp
 
-/-- operator trees over atoms: prefix and binary operators -/
+mutual
+/-- operator trees over atoms: prefix and binary operators, index expressions, calls, array literals -/
 inductive T
   | leaf (tok : Token) (e : Expr)
   | pre (o : Token) (r : T)
   | node (o : Token) (l r : T)
   | idx (l i : T)
+  | call (fn : T) (args : TL)
+  | arr (els : TL)
+/-- argument / element lists -/
+inductive TL
+  | nil
+  | cons (t : T) (rest : TL)
+end
 
+mutual
 def T.wf : T → Prop
   | .leaf tok e => Atom tok e
   | .pre o r => Pre o ∧ r.wf
   | .node o l r => Bin o ∧ l.wf ∧ r.wf
   | .idx l i => l.wf ∧ i.wf
+  | .call fn args => fn.wf ∧ args.wf
+  | .arr els => els.wf
+def TL.wf : TL → Prop
+  | .nil => True
+  | .cons t rest => t.wf ∧ rest.wf
+end
 
 /-- the level of a tree: the precedence of its root operator; atoms bind tightest -/
 def T.lvl : T → Nat
@@ -59,6 +74,8 @@ def T.lvl : T → Nat
   | .pre _ _ => PREFIX
   | .node o _ _ => precedence o.ty
   | .idx _ _ => INDEX
+  | .call _ _ => CALL
+  | .arr _ => 100
 
 /-- the level below which the tree can stand as an operand without parentheses: a prefix operator
     is taken whatever the level -/
@@ -67,12 +84,23 @@ def T.plvl : T → Nat
   | .pre _ _ => 100
   | .node o _ _ => precedence o.ty
   | .idx _ _ => INDEX
+  | .call _ _ => CALL
+  | .arr _ => 100
 
+mutual
 def T.toExpr : T → Expr
   | .leaf _ e => e
   | .pre o r => .prefix o.lit r.toExpr
   | .node o l r => .infix o.lit l.toExpr r.toExpr
   | .idx l i => .index l.toExpr i.toExpr
+  | .call fn args => .call fn.toExpr args.toExprs
+  | .arr els => .arrayLit els.toExprs
+def TL.toExprs : TL → List Expr
+  | .nil => []
+  | .cons t rest => t.toExpr :: rest.toExprs
+end
+
+def commaT : Token := ⟨.COMMA, [',']⟩
 
 def lsT : Token := ⟨.LSQUARE, ['[']⟩
 def rsT : Token := ⟨.RSQUARE, [']']⟩
@@ -81,6 +109,7 @@ def rpT : Token := ⟨.RPAREN, [')']⟩
 
 def parenIf (b : Bool) (ts : List Token) : List Token := if b then lpT :: ts ++ [rpT] else ts
 
+mutual
 /-- print with the parentheses the documented rules make necessary, and no others: a left operand of
     lower level, a right operand of lower or equal level (operators group left to right) -/
 def T.pr : T → List Token
@@ -88,6 +117,17 @@ def T.pr : T → List Token
   | .pre o r => [o] ++ parenIf (r.lvl < PREFIX) r.pr
   | .node o l r => parenIf (l.lvl < precedence o.ty) l.pr ++ [o] ++ parenIf (r.lvl ≤ precedence o.ty) r.pr
   | .idx l i => parenIf (l.lvl < INDEX) l.pr ++ [lsT] ++ i.pr ++ [rsT]
+  | .call fn args => parenIf (fn.lvl < CALL) fn.pr ++ [lpT] ++ args.pr ++ [rpT]
+  | .arr els => [lsT] ++ els.pr ++ [rsT]
+/-- the elements separated by commas -/
+def TL.pr : TL → List Token
+  | .nil => []
+  | .cons t rest => t.pr ++ rest.prRest
+/-- `, t1, t2 …` -/
+def TL.prRest : TL → List Token
+  | .nil => []
+  | .cons t rest => [commaT] ++ t.pr ++ rest.prRest
+end
 
 
 /-- an identifier in operand position is an atom -/
@@ -221,11 +261,18 @@ theorem loop_index (f p : Nat) (left : Expr) (c : Token) (inner : List Token) (p
     simp
     cases s2.expectPeek .RSQUARE <;> rfl
 
+mutual
 def T.size : T → Nat
   | .leaf _ _ => 1
   | .pre _ r => r.size + 3
   | .node _ l r => l.size + r.size + 3
   | .idx l i => l.size + i.size + 3
+  | .call fn args => fn.size + args.size + 3
+  | .arr els => els.size + 3
+def TL.size : TL → Nat
+  | .nil => 1
+  | .cons t rest => t.size + rest.size + 2
+end
 
 /-- fuel the infix loop has used up when `t` stands built as its left operand -/
 def T.k : T → Nat
@@ -233,7 +280,10 @@ def T.k : T → Nat
   | .pre _ _ => 1
   | .node o l _ => (if l.lvl < precedence o.ty then 1 else l.k) + 1
   | .idx l _ => (if l.lvl < INDEX then 1 else l.k) + 1
+  | .call fn _ => (if fn.lvl < CALL then 1 else fn.k) + 1
+  | .arr _ => 1
 
+mutual
 /-- nesting of `parseExpression` calls needed for `t` -/
 def T.nest : T → Nat
   | .leaf _ _ => 1
@@ -241,27 +291,43 @@ def T.nest : T → Nat
   | .node o l r => max (l.nest + (if l.lvl < precedence o.ty then 1 else 0))
                        (r.nest + 1 + (if r.lvl ≤ precedence o.ty then 1 else 0))
   | .idx l i => max (l.nest + (if l.lvl < INDEX then 1 else 0)) (i.nest + 1)
+  | .call fn args => max (fn.nest + (if fn.lvl < CALL then 1 else 0)) (args.nest + 1)
+  | .arr els => els.nest + 1
+def TL.nest : TL → Nat
+  | .nil => 0
+  | .cons t rest => max t.nest rest.nest
+end
 
 theorem T.size_pos (t : T) : 1 ≤ t.size := by cases t <;> simp [T.size]
+theorem TL.size_pos (t : TL) : 1 ≤ t.size := by cases t <;> simp [TL.size]
 theorem T.k_pos (t : T) : 1 ≤ t.k := by cases t <;> simp [T.k]
-theorem T.k_le_size (t : T) : t.k ≤ t.size := by
-  induction t with
-  | leaf tok e => simp [T.k, T.size]
-  | pre o r ih => simp [T.k, T.size]
-  | node o l r ihl ihr =>
+theorem T.k_le_size : ∀ (t : T), t.k ≤ t.size
+  | .leaf tok e => by simp [T.k, T.size]
+  | .pre o r => by simp [T.k, T.size]
+  | .node o l r => by
+    have := T.k_le_size l
     simp only [T.k, T.size]
     have := r.size_pos
     split <;> omega
-  | idx l i ihl ihi =>
+  | .idx l i => by
+    have := T.k_le_size l
     simp only [T.k, T.size]
     have := i.size_pos
     split <;> omega
+  | .call fn args => by
+    have := T.k_le_size fn
+    simp only [T.k, T.size]
+    have := args.size_pos
+    split <;> omega
+  | .arr els => by simp [T.k, T.size]
 theorem T.nest_pos (t : T) : 1 ≤ t.nest := by
   cases t with
   | leaf tok e => simp [T.nest]
   | pre o r => simp only [T.nest]; omega
   | node o l r => simp only [T.nest]; omega
   | idx l i => simp only [T.nest]; omega
+  | call fn args => simp only [T.nest]; omega
+  | arr els => simp only [T.nest]; omega
 
 def headPrec (rest : List Token) : Nat := precedence (rest.headD Token.eof).ty
 def lastTok (ts : List Token) : Token := ts.getLast?.getD Token.eof
@@ -281,6 +347,8 @@ theorem T.lvl_pos (t : T) (h : t.wf) : LOWEST < t.lvl := by
   | pre o r => simp [T.lvl, LOWEST, PREFIX]
   | node o l r => exact h.1.prec_pos
   | idx l i => simp [T.lvl, LOWEST, INDEX]
+  | call fn args => simp [T.lvl, LOWEST, CALL]
+  | arr els => simp [T.lvl, LOWEST]
 
 theorem T.lvl_le_plvl (t : T) (h : t.wf) : t.lvl ≤ t.plvl := by
   cases t with
@@ -288,6 +356,8 @@ theorem T.lvl_le_plvl (t : T) (h : t.wf) : t.lvl ≤ t.plvl := by
   | pre o r => simp [T.lvl, T.plvl, PREFIX]
   | node o l r => simp [T.lvl, T.plvl]
   | idx l i => simp [T.lvl, T.plvl]
+  | call fn args => simp [T.lvl, T.plvl]
+  | arr els => simp [T.lvl, T.plvl]
 
 theorem T.plvl_pos (t : T) (h : t.wf) : LOWEST < t.plvl := Nat.lt_of_lt_of_le (t.lvl_pos h) (t.lvl_le_plvl h)
 
@@ -336,9 +406,120 @@ theorem operand_of_L (t : T) (hwf : t.wf) (hL : Lstmt t) (b : Bool) (p f : Nat) 
     rfl
 
 
+/-- an atom starts an expression: its token has a prefix parselet -/
+theorem atom_prefix {tok : Token} {e : Expr} (h : Atom tok e) : prefixFn tok.ty ≠ none := by
+  intro hn
+  have h1 := h 0 100 [] ⟨.EOF, []⟩ false false 0 (by simp [maxNesting])
+  have h2 := h 0 100 [] ⟨.EOF, ['x']⟩ false false 0 (by simp [maxNesting])
+  simp [parseExpression, PState.cur, hn, unwind, infixLoop, PState.peekIs, PState.peek, maxNesting, Token.eof,
+    precedence, LOWEST] at h1 h2
+  have := h1.2.trans h2.2.symm
+  simp at this
+
+/-- the first token of a printed tree -/
+def T.headTok : T → Token
+  | .leaf tok _ => tok
+  | .pre o _ => o
+  | .node o l _ => if l.lvl < precedence o.ty then lpT else l.headTok
+  | .idx l _ => if l.lvl < INDEX then lpT else l.headTok
+  | .call fn _ => if fn.lvl < CALL then lpT else fn.headTok
+  | .arr _ => lsT
+
+theorem T.pr_head? : ∀ (t : T), t.pr.head? = some t.headTok
+  | .leaf tok e => rfl
+  | .pre o r => by simp [T.pr, T.headTok]
+  | .node o l r => by
+    have h := T.pr_head? l
+    by_cases hb : l.lvl < precedence o.ty
+    · simp [T.pr, T.headTok, parenIf, hb]
+    · simp [T.pr, T.headTok, parenIf, hb, List.head?_append, h]
+  | .idx l i => by
+    have h := T.pr_head? l
+    by_cases hb : l.lvl < INDEX
+    · simp [T.pr, T.headTok, parenIf, hb]
+    · simp [T.pr, T.headTok, parenIf, hb, List.head?_append, h]
+  | .call fn args => by
+    have h := T.pr_head? fn
+    by_cases hb : fn.lvl < CALL
+    · simp [T.pr, T.headTok, parenIf, hb]
+    · simp [T.pr, T.headTok, parenIf, hb, List.head?_append, h]
+  | .arr els => by simp [T.pr, T.headTok]
+
+theorem T.pr_head (t : T) : ∃ tl, t.pr = t.headTok :: tl := by
+  have h := t.pr_head?
+  cases hp : t.pr with
+  | nil => rw [hp] at h; simp at h
+  | cons a tl => rw [hp] at h; simp at h; exact ⟨tl, by rw [h]⟩
+
+theorem T.head_prefix : ∀ (t : T), t.wf → prefixFn t.headTok.ty ≠ none
+  | .leaf tok e, h => atom_prefix h
+  | .pre o r, h => by have := h.1; unfold Pre at this; simp [T.headTok, this]
+  | .node o l r, h => by
+    simp only [T.headTok]
+    split
+    · simp [lpT, prefixFn]
+    · exact T.head_prefix l h.2.1
+  | .idx l i, h => by
+    simp only [T.headTok]
+    split
+    · simp [lpT, prefixFn]
+    · exact T.head_prefix l h.1
+  | .call fn args, h => by
+    simp only [T.headTok]
+    split
+    · simp [lpT, prefixFn]
+    · exact T.head_prefix fn h.1
+  | .arr els, _ => by simp [T.headTok, lsT, prefixFn]
+
+/-- the loop takes an opening parenthesis: the argument list -/
+theorem loop_call (f p : Nat) (left : Expr) (c : Token) (inner : List Token) (prev : Token) (tn fn : Bool) (d : Nat)
+    (hp : p < CALL) :
+    infixLoop (f + 2) p left ⟨c :: lpT :: inner, prev, tn, fn, d⟩ =
+      (match parseExprList f .RPAREN ⟨lpT :: inner, c, tn, fn, d⟩ with
+       | none => none
+       | some (args, s3) => infixLoop (f + 1) p (.call left args) s3) := by
+  have hp' : p < precedence TokType.LPAREN := by simpa [precedence] using hp
+  simp [infixLoop, PState.peekIs, PState.peek, lpT, hp', infixFn, parseInfix, PState.next, PState.cur]
+  cases parseExprList f .RPAREN ⟨⟨.LPAREN, ['(']⟩ :: inner, c, tn, fn, d⟩ with
+  | none => rfl
+  | some r => rfl
+
+/-- an opening square bracket in operand position: the element list -/
+theorem parse_arr (f p : Nat) (inner : List Token) (prev : Token) (tn fn : Bool) (d : Nat) (hd : d + 1 ≤ maxNesting) :
+    parseExpression (f + 2) p ⟨lsT :: inner, prev, tn, fn, d⟩ =
+      (match parseExprList f .RSQUARE ⟨lsT :: inner, prev, tn, fn, d + 1⟩ with
+       | none => none
+       | some (els, s2) => unwind (infixLoop (f + 1) p (.arrayLit els) s2)) := by
+  have hd' : ¬ (d + 1 > maxNesting) := by omega
+  simp [parseExpression, parsePrefix, PState.cur, isPostfix, prefixFn, hd', unwind, lsT]
+  cases parseExprList f .RSQUARE ⟨⟨.LSQUARE, ['[']⟩ :: inner, prev, tn, fn, d + 1⟩ with
+  | none => rfl
+  | some r =>
+    obtain ⟨e, s2⟩ := r
+    simp
+    cases infixLoop (f + 1) p (Expr.arrayLit e) s2 <;> rfl
+
+/-- what is proved for a list of arguments / elements after its first one: the rest `, t1, t2 …` up to
+    the closing token -/
+def LLstmt (ts : TL) : Prop :=
+  ∀ (f : Nat) (endTok c : Token) (rest : List Token) (prev : Token) (tn fn : Bool) (d : Nat) (acc : List Expr),
+    (endTok.ty == TokType.COMMA) = false → precedence endTok.ty = LOWEST →
+    d + ts.nest ≤ maxNesting → 4 * ts.size ≤ f →
+    ∃ prev', parseExprListLoop f endTok.ty ⟨c :: (ts.prRest ++ endTok :: rest), prev, tn, fn, d⟩ acc =
+      some (acc ++ ts.toExprs, ⟨endTok :: rest, prev', tn, fn, d⟩)
+
+/-- … and for a whole list after its opening token -/
+def LPstmt (ts : TL) : Prop :=
+  ∀ (f : Nat) (endTok c : Token) (rest : List Token) (prev : Token) (tn fn : Bool) (d : Nat),
+    (endTok.ty == TokType.COMMA) = false → precedence endTok.ty = LOWEST → prefixFn endTok.ty = none →
+    d + ts.nest ≤ maxNesting → 4 * ts.size + 4 ≤ f →
+    ∃ prev', parseExprList f endTok.ty ⟨c :: (ts.pr ++ endTok :: rest), prev, tn, fn, d⟩ =
+      some (ts.toExprs, ⟨endTok :: rest, prev', tn, fn, d⟩)
+
 theorem parenIf_ne_nil (b : Bool) (t : T) : parenIf b t.pr ≠ [] := by
   cases b <;> simp [parenIf, T.pr_ne_nil]
 
+mutual
 theorem L_all : ∀ (t : T), t.wf → Lstmt t
   | .leaf tok e, hwf => by
     intro p f rest prev tn fn d _ _ hd hf
@@ -371,6 +552,8 @@ theorem L_all : ∀ (t : T), t.wf → Lstmt t
         | leaf tok e => simp [T.plvl, PREFIX]
         | pre o2 r2 => simp [T.plvl, PREFIX]
         | idx l2 i2 => simp [T.plvl, PREFIX, INDEX]
+        | call f2 a2 => simp [T.plvl, PREFIX, CALL]
+        | arr e2 => simp [T.plvl, PREFIX]
         | node o2 l2 r2 =>
           have hne : precedence o2.ty ≠ PREFIX := by
             cases o2.ty <;> simp [precedence, PREFIX, LOWEST, TERNARY, ASSIGN, COND, EQUALS, CMP, LESSGREATER, SUM, PRODUCT, POWER, MOD, CALL, INDEX]
@@ -508,36 +691,217 @@ theorem L_all : ∀ (t : T), t.wf → Lstmt t
       · simp only [hb, ↓reduceIte] at hg ⊢; omega
     rw [hlast, hk]
     rfl
+  | .call fnT args, hwf => by
+    obtain ⟨hwl, hwa⟩ := hwf
+    have ihl := L_all fnT hwl
+    have iha := LP_all args hwa
+    intro p f rest prev tn fn d hp hrest hd hf
+    simp only [T.lvl, T.plvl] at hp hrest
+    simp only [T.size] at hf
+    simp only [T.nest] at hd
+    have hkl := fnT.k_le_size
+    have hsl := fnT.size_pos
+    have hsa := args.size_pos
+    have e1 : (T.call fnT args).pr ++ rest = parenIf (fnT.lvl < CALL) fnT.pr ++ (lpT :: (args.pr ++ (rpT :: rest))) := by
+      simp [T.pr]
+    rw [e1]
+    obtain ⟨pv1, h1⟩ := operand_of_L fnT hwl ihl (decide (fnT.lvl < CALL)) p f
+      (lpT :: (args.pr ++ (rpT :: rest))) prev tn fn d
+      (by
+        intro hb
+        have : ¬ (fnT.lvl < CALL) := by simpa using hb
+        have := fnT.lvl_le_plvl hwl
+        refine ⟨by omega, ?_⟩
+        simp only [headPrec, List.headD_cons, lpT, precedence]; omega)
+      (by
+        by_cases hb : fnT.lvl < CALL <;> simp [hb] at hd ⊢ <;> omega)
+      (by omega)
+    simp only [decide_eq_true_eq] at h1
+    rw [h1]
+    obtain ⟨g, hg⟩ : ∃ g, f - (if fnT.lvl < CALL then 1 else fnT.k) = g + 2 :=
+      ⟨f - (if fnT.lvl < CALL then 1 else fnT.k) - 2, by split <;> omega⟩
+    rw [hg, loop_call g p _ _ _ pv1 tn fn (d + 1) hp]
+    obtain ⟨pv2, h2⟩ := iha g rpT lpT rest (lastTok (parenIf (fnT.lvl < CALL) fnT.pr)) tn fn (d + 1)
+      (by rfl) (by simp [rpT, precedence]) (by simp [rpT, prefixFn]) (by omega) (by split at hg <;> omega)
+    simp only [rpT] at h2 ⊢
+    rw [h2]
+    refine ⟨pv2, ?_⟩
+    have hlast : lastTok (T.call fnT args).pr = ⟨.RPAREN, [')']⟩ := by
+      simp only [T.pr]
+      rw [lastTok_append_ne _ _ (by simp)]; rfl
+    have hk : f - (T.call fnT args).k = g + 1 := by
+      simp only [T.k]
+      by_cases hb : fnT.lvl < CALL
+      · simp only [hb, ↓reduceIte] at hg ⊢; omega
+      · simp only [hb, ↓reduceIte] at hg ⊢; omega
+    rw [hlast, hk]
+    rfl
+  | .arr els, hwf => by
+    have iha := LP_all els hwf
+    intro p f rest prev tn fn d hp hrest hd hf
+    simp only [T.size] at hf
+    simp only [T.nest] at hd
+    have hsa := els.size_pos
+    obtain ⟨f', rfl⟩ : ∃ f', f = f' + 2 := ⟨f - 2, by omega⟩
+    have e1 : (T.arr els).pr ++ rest = lsT :: (els.pr ++ (rsT :: rest)) := by simp [T.pr]
+    rw [e1, parse_arr f' p _ prev tn fn d (by omega)]
+    obtain ⟨pv2, h2⟩ := iha f' rsT lsT rest prev tn fn (d + 1)
+      (by rfl) (by simp [rsT, precedence]) (by simp [rsT, prefixFn]) (by omega) (by omega)
+    simp only [rsT] at h2 ⊢
+    rw [h2]
+    refine ⟨pv2, ?_⟩
+    have hlast : lastTok (T.arr els).pr = ⟨.RSQUARE, [']']⟩ := by
+      simp only [T.pr]
+      rw [lastTok_append_ne _ _ (by simp)]; rfl
+    rw [hlast]
+    simp [T.k, T.toExpr]
+
+theorem LL_all : ∀ (ts : TL), ts.wf → LLstmt ts
+  | .nil, _ => by
+    intro f endTok c rest prev tn fn d acc hnc _ _ hf
+    simp only [TL.size] at hf
+    obtain ⟨f', rfl⟩ : ∃ f', f = f' + 1 := ⟨f - 1, by omega⟩
+    refine ⟨c, ?_⟩
+    simp [TL.prRest, TL.toExprs, parseExprListLoop, PState.peekIs, PState.peek, hnc, PState.expectPeek, PState.next,
+      PState.cur]
+  | .cons t r, hwf => by
+    obtain ⟨hwt, hwr⟩ := hwf
+    have iht := L_all t hwt
+    have ihr := LL_all r hwr
+    intro f endTok c rest prev tn fn d acc hnc hpe hd hf
+    simp only [TL.size] at hf
+    simp only [TL.nest] at hd
+    have hst := t.size_pos
+    have hkt := t.k_le_size
+    obtain ⟨f', rfl⟩ : ∃ f', f = f' + 1 := ⟨f - 1, by omega⟩
+    have e1 : (TL.cons t r).prRest ++ endTok :: rest = commaT :: (t.pr ++ (r.prRest ++ endTok :: rest)) := by
+      simp [TL.prRest]
+    rw [e1]
+    have hhead : headPrec (r.prRest ++ endTok :: rest) ≤ t.lvl := by
+      have hl := t.lvl_pos hwt
+      cases r with
+      | nil => simp only [TL.prRest, List.nil_append, headPrec, List.headD_cons, hpe]; exact Nat.le_of_lt hl
+      | cons t2 r2 => simp only [TL.prRest, headPrec, List.cons_append, List.nil_append, List.headD_cons, commaT, precedence]; exact Nat.le_of_lt hl
+    obtain ⟨pv, hin⟩ := iht LOWEST f' (r.prRest ++ endTok :: rest) commaT tn fn d (t.plvl_pos hwt) hhead (by omega) (by omega)
+    have hpeekstop : ¬ (LOWEST < precedence (PState.peek ⟨lastTok t.pr :: (r.prRest ++ endTok :: rest), pv, tn, fn, d + 1⟩).ty) := by
+      cases r with
+      | nil => simp [TL.prRest, PState.peek, hpe]
+      | cons t2 r2 => simp [TL.prRest, PState.peek, commaT, precedence]
+    obtain ⟨g, hg⟩ : ∃ g, f' - t.k = g + 1 := ⟨f' - t.k - 1, by omega⟩
+    obtain ⟨pv3, h3⟩ := ihr f' endTok (lastTok t.pr) rest pv tn fn d (acc ++ [t.toExpr]) hnc hpe (by omega) (by omega)
+    refine ⟨pv3, ?_⟩
+    simp only [parseExprListLoop, PState.peekIs, PState.peek, List.tail_cons, List.headD_cons, commaT, beq_self_eq_true,
+      ↓reduceIte, PState.next, PState.cur]
+    have hin' : parseExpression f' LOWEST ⟨t.pr ++ (r.prRest ++ endTok :: rest), ⟨.COMMA, [',']⟩, tn, fn, d⟩ = _ := hin
+    rw [hin', hg, loop_stop g LOWEST _ _ hpeekstop]
+    simp only [unwind, Nat.add_sub_cancel]
+    rw [h3]
+    simp [TL.toExprs]
+
+theorem LP_all : ∀ (ts : TL), ts.wf → LPstmt ts
+  | .nil, _ => by
+    intro f endTok c rest prev tn fn d _ _ _ _ hf
+    obtain ⟨f', rfl⟩ : ∃ f', f = f' + 1 := ⟨f - 1, by omega⟩
+    refine ⟨c, ?_⟩
+    simp [TL.pr, TL.toExprs, parseExprList, PState.peekIs, PState.peek, PState.next, PState.cur]
+  | .cons t r, hwf => by
+    obtain ⟨hwt, hwr⟩ := hwf
+    have iht := L_all t hwt
+    have ihr := LL_all r hwr
+    intro f endTok c rest prev tn fn d hnc hpe hpf hd hf
+    simp only [TL.size] at hf
+    simp only [TL.nest] at hd
+    have hst := t.size_pos
+    have hkt := t.k_le_size
+    obtain ⟨f', rfl⟩ : ∃ f', f = f' + 1 := ⟨f - 1, by omega⟩
+    have e1 : (TL.cons t r).pr ++ endTok :: rest = t.pr ++ (r.prRest ++ endTok :: rest) := by simp [TL.pr]
+    rw [e1]
+    obtain ⟨tl, htl⟩ := t.pr_head
+    have hne : (t.headTok.ty == endTok.ty) = false := by
+      have := t.head_prefix hwt
+      cases h : (t.headTok.ty == endTok.ty)
+      · rfl
+      · rw [beq_iff_eq] at h; rw [h] at this; exact absurd hpf this
+    have hhead : headPrec (r.prRest ++ endTok :: rest) ≤ t.lvl := by
+      have hl := t.lvl_pos hwt
+      cases r with
+      | nil => simp only [TL.prRest, List.nil_append, headPrec, List.headD_cons, hpe]; exact Nat.le_of_lt hl
+      | cons t2 r2 => simp only [TL.prRest, headPrec, List.cons_append, List.nil_append, List.headD_cons, commaT, precedence]; exact Nat.le_of_lt hl
+    obtain ⟨pv, hin⟩ := iht LOWEST f' (r.prRest ++ endTok :: rest) c tn fn d (t.plvl_pos hwt) hhead (by omega) (by omega)
+    have hpeekstop : ¬ (LOWEST < precedence (PState.peek ⟨lastTok t.pr :: (r.prRest ++ endTok :: rest), pv, tn, fn, d + 1⟩).ty) := by
+      cases r with
+      | nil => simp [TL.prRest, PState.peek, hpe]
+      | cons t2 r2 => simp [TL.prRest, PState.peek, commaT, precedence]
+    obtain ⟨g, hg⟩ : ∃ g, f' - t.k = g + 1 := ⟨f' - t.k - 1, by omega⟩
+    obtain ⟨pv3, h3⟩ := ihr f' endTok (lastTok t.pr) rest pv tn fn d [t.toExpr] hnc hpe (by omega) (by omega)
+    refine ⟨pv3, ?_⟩
+    have hpk : (PState.peekIs ⟨c :: (t.pr ++ (r.prRest ++ endTok :: rest)), prev, tn, fn, d⟩ endTok.ty) = false := by
+      simp [PState.peekIs, PState.peek, htl, hne]
+    simp only [parseExprList, hpk, Bool.false_eq_true, ↓reduceIte, PState.next, PState.cur, List.tail_cons, List.headD_cons]
+    rw [hin, hg, loop_stop g LOWEST _ _ hpeekstop]
+    simp only [unwind, Nat.add_sub_cancel]
+    rw [h3]
+    simp [TL.toExprs]
+end
 
 
-theorem T.size_le_pr (t : T) : t.size ≤ 4 * t.pr.length := by
-  induction t with
-  | idx l i ihl ihi =>
+theorem parenIf_len (b : Bool) (ts : List Token) : ts.length ≤ (parenIf b ts).length := by
+  unfold parenIf; split <;> simp <;> omega
+
+mutual
+theorem T.size_le_pr : ∀ (t : T), t.size ≤ 4 * t.pr.length
+  | .leaf tok e => by simp [T.size, T.pr]
+  | .pre o r => by
+    have := T.size_le_pr r
+    have h2 := parenIf_len (r.lvl < PREFIX) r.pr
     simp only [T.size, T.pr, List.length_append, List.length_cons, List.length_nil]
-    have h1 : l.pr.length ≤ (parenIf (l.lvl < INDEX) l.pr).length := by
-      unfold parenIf; split <;> simp <;> omega
     omega
-  | leaf tok e => simp [T.size, T.pr]
-  | pre o r ih =>
+  | .node o l r => by
+    have := T.size_le_pr l
+    have := T.size_le_pr r
+    have h1 := parenIf_len (l.lvl < precedence o.ty) l.pr
+    have h2 := parenIf_len (r.lvl ≤ precedence o.ty) r.pr
     simp only [T.size, T.pr, List.length_append, List.length_cons, List.length_nil]
-    have h2 : r.pr.length ≤ (parenIf (r.lvl < PREFIX) r.pr).length := by
-      unfold parenIf; split <;> simp <;> omega
     omega
-  | node o l r ihl ihr =>
+  | .idx l i => by
+    have := T.size_le_pr l
+    have := T.size_le_pr i
+    have h1 := parenIf_len (l.lvl < INDEX) l.pr
     simp only [T.size, T.pr, List.length_append, List.length_cons, List.length_nil]
-    have h1 : l.pr.length ≤ (parenIf (l.lvl < precedence o.ty) l.pr).length := by
-      unfold parenIf; split <;> simp <;> omega
-    have h2 : r.pr.length ≤ (parenIf (r.lvl ≤ precedence o.ty) r.pr).length := by
-      unfold parenIf; split <;> simp <;> omega
     omega
+  | .call fn args => by
+    have := T.size_le_pr fn
+    have := TL.size_le_pr args
+    have h1 := parenIf_len (fn.lvl < CALL) fn.pr
+    simp only [T.size, T.pr, List.length_append, List.length_cons, List.length_nil]
+    omega
+  | .arr els => by
+    have := TL.size_le_pr els
+    simp only [T.size, T.pr, List.length_append, List.length_cons, List.length_nil]
+    omega
+theorem TL.size_le_pr : ∀ (ts : TL), ts.size ≤ 4 * ts.pr.length + 3
+  | .nil => by simp [TL.size, TL.pr]
+  | .cons t r => by
+    have := T.size_le_pr t
+    have := TL.size_le_prRest r
+    simp only [TL.size, TL.pr, List.length_append]
+    omega
+theorem TL.size_le_prRest : ∀ (ts : TL), ts.size ≤ 4 * ts.prRest.length + 1
+  | .nil => by simp [TL.size, TL.prRest]
+  | .cons t r => by
+    have := T.size_le_pr t
+    have := TL.size_le_prRest r
+    simp only [TL.size, TL.prRest, List.length_append, List.length_cons, List.length_nil]
+    omega
+end
 
 def retTok : Token := ⟨.RETURN, ['r', 'e', 't', 'u', 'r', 'n']⟩
 def semiTok : Token := ⟨.SEMICOLON, [';']⟩
 
 /-- **The parser reads back what the printer prints.**  For every operator tree over atoms, prefix
-    operators, binary operators and index expressions - of any size and shape - printed with exactly the
-    parentheses the documented levels and left-to-right grouping make necessary, `return <text>;` parses
-    to that very tree. -/
+    operators, binary operators, index expressions, calls and array literals - of any size and shape -
+    printed with exactly the parentheses the documented levels and left-to-right grouping make necessary,
+    `return <text>;` parses to that very tree. -/
 theorem pratt_round_trip (t : T) (hwf : t.wf) (hn : t.nest ≤ maxNesting) :
     parse (retTok :: t.pr ++ [semiTok, Token.eof]) = some [.ret t.toExpr] := by
   have hsz := t.size_le_pr
